@@ -1,5 +1,6 @@
 import Amgcl.Driver.Util
 import Amgcl.Model.Kernels
+import Amgcl.Model.KernelsCopy
 /-! handlers for the C08 sparse kernels; a product/sum result is printed as `<ptr of the first pass> <CRS of the second pass>` -/
 namespace Amgcl.Driver.Kernels
 open Amgcl Amgcl.Driver
@@ -34,6 +35,10 @@ def handle (op : String) (args : List String) : Option String :=
       fun (A, inv) => if A.wfb then showOptVec (diagonal A inv) else badInput
   | "k_gersh" => withArgs (do let sc ← pBool; let A ← pCRS; pure (sc, A)) args
       fun (sc, A) => if A.wfb && A.nrows == A.ncols then showRat (gershgorin sc A) else badInput
+  | "k_crs_copy" => withArgs (do let kind ← pNat; let A ← pCRS; pure (kind, A)) args
+      fun (kind, A) =>
+        if A.wfb && kind ≤ 3 && (kind != 3 || A.nrows == A.ncols) then
+          showPtrCRS ((crsCopy A).rows.toList.map List.length) (crsCopy A) else badInput
   | _ => none
 
 end Amgcl.Driver.Kernels
